@@ -33,6 +33,7 @@ type HarnessCfg struct {
 	Stubs      map[string]string        `json:"stubs"`
 	YieldMode  string                   `json:"yield_mode"`
 	ClockMode  string                   `json:"clock_mode"`
+	MaxPreempt     int                  `json:"max_preempt"`     // overrides the check-level bound for this harness
 	ReplayOptional bool                 `json:"replay_optional"` // model-level counterexamples (crash durability) count even if a native run cannot exhibit them
 }
 
@@ -150,6 +151,7 @@ func main() {
 		P.MaxPreempt = cfg.MaxPreempt
 	}
 	P.ExplicitYield = cfg.YieldMode == "explicit"
+	basePreempt := P.MaxPreempt
 	if cfg.AllocEnumMax > 0 {
 		P.AllocEnumMax = cfg.AllocEnumMax
 	}
@@ -227,6 +229,10 @@ func main() {
 			}
 		}
 		P.ExplicitYield = cfg.YieldMode == "explicit" || hc.YieldMode == "explicit"
+		P.MaxPreempt = basePreempt
+		if hc.MaxPreempt > 0 {
+			P.MaxPreempt = hc.MaxPreempt
+		}
 		P.ConcreteClock = cfg.ClockMode == "concrete" || hc.ClockMode == "concrete"
 		maxSec := 600
 		if *tier == "thorough" {
